@@ -15,6 +15,7 @@ inductive Beh where
   | panic
   | file (code declared : Nat) (actual : Option Nat)   -- response with a file body (`none` = file missing)
   | events (n : Nat) (code : Nat := 200)                -- event stream of n messages, then closed
+  | eventsThenOversize (n : Nat)                        -- n small events, then one the encoder cannot take: the source fails
   | eventBurst (n : Nat)                                -- n events of 30 000 bytes queued before the response is returned
   | unwritable                                          -- a response with a Content-Length field of its own: refused before any byte
   | uploadThenEvents (k : Nat)                          -- fetch the body, then an event stream of the first min k 50 messages
@@ -47,6 +48,8 @@ def parseBeh (s : String) : Beh :=
   if k == "Q" then .getBody 1000000 else
   if k == "U" then .unwritable else
   if k == "B" then .eventBurst n else
+  if k == "R" then .getBody n else
+  if k == "O" then .eventsThenOversize n else
   if k == "w" then .getBody 1000000 else
   if k == "n" then .normal n else if k == "g" then .getBody n else if k == "a" then .always n
   else if k == "d" then .drop else .panic
@@ -99,6 +102,9 @@ def handlerOf (reqs : List SReq) (v : ReqView) : HandlerOut :=
   | .always m => .getBody m
   | .drop => .drop
   | .panic => .panic
+  | .eventsThenOversize n =>
+    .normal { code := 200, ctype := some (str "text/event-stream"),
+              body := ⟨none, { pieces := (List.range n).map (fun i => EventModel.encode (.message (str s!"e{i+1}-{ps}"))), endsWithError := true }⟩ }
   | .eventBurst n =>
     .normal { code := 200, ctype := some (str "text/event-stream"),
               body := ⟨none, { pieces := (List.range n).map fun i => EventModel.encode (.message (str s!"e{i+1}-{ps}-{String.ofList (List.replicate 30000 'b')}")) }⟩ }
@@ -171,6 +177,7 @@ def exchangeCheck (reqs : List SReq) (calls : List String) (wire : Bytes) (cut :
   -- inside that response, and the structural clauses below do not apply (the exact bytes are compared with the model)
   let faultyFile := reqs.any fun r => match r.beh with
     | .file _ declared actual => actual.isNone || actual.getD 0 < declared
+    | .eventsThenOversize _ => true
     | _ => false
   (match ConnContract.responses (wire.length + 1) wire [] with
    | none => if faultyFile then [] else ["wire-not-a-sequence-of-responses"]
@@ -205,7 +212,7 @@ where
     (List.range (hay.length + 1)).any fun i => needle.isPrefixOf (hay.drop i)
 
 /-- C09 (single-request scenarios `POST … g<M>`): the boundary table, from the property statement. -/
-def sizeCheck (small : Nat) (cache : Bool) (reqs : List SReq) (calls0 : List String) (wire : Bytes) : List String :=
+def sizeCheck (small : Nat) (cache : Bool) (reqs : List SReq) (calls0 : List String) (wire : Bytes) (diskFails : Bool := false) : List String :=
   match reqs with
   | r :: _ =>
     -- (judged on the first request; requests that follow on the same connection have their own calls)
@@ -226,6 +233,9 @@ def sizeCheck (small : Nat) (cache : Bool) (reqs : List SReq) (calls0 : List Str
       else if !cache then
         (if pendingCalls == 1 && bodyCalls == 0 && code == 500 then [] else ["large-body-without-cache-dir"])
       else if declared && len == 0 then []   -- a declared empty body is "no body"
+      else if diskFails && len ≤ m then
+        -- the body could not be saved: it is never handed over, and the fault is the server's
+        (if pendingCalls == 1 && bodyCalls == 0 && code / 100 == 5 then [] else ["accepted-despite-disk-failure"])
       else if len ≤ m then
         (if pendingCalls == 1 then [] else ["handler-not-asked-first"]) ++
         (if complete && !(bodyCalls == 1 && code == 200) then ["body-within-limit-not-accepted"] else [])
@@ -303,7 +313,7 @@ def handle (tag : String) (args : List String) (obs : String) : String :=
                then ["server-fault-answered-as-client-error"] else []) ++
             (if outlivedS != "" && obsGet obs "outlived" != some "0" then ["temp-file-outlives-its-request"] else []) ++
             (if _sched == "hold" && earlyS != "" && obsGet obs "early" != some (earlyS.drop 7).toString then
-               (if earlyS == " early=1" then ["over-limit-body-read-past-limit"] else ["answered-before-end-of-body"]) else []) ++ (if tag == "c09" then sizeCheck s (cache != "0") reqs obsCalls wire else [])
+               (if earlyS == " early=1" then ["over-limit-body-read-past-limit"] else ["answered-before-end-of-body"]) else []) ++ (if tag == "c09" then sizeCheck s (cache != "0") reqs obsCalls wire (cache == "3") else [])
           if fails.isEmpty then (if tailLost then "ok-tail-lost-to-reset" else "ok") else "FAIL:" ++ ",".intercalate fails ++ ":"
         | _, _, _ => "FAIL:unparsable-observation:"
       model ++ "\t" ++ verdict
